@@ -6,7 +6,7 @@ finding live in corpus/C09/<target>/regress/ and are replayed on every run."""
 
 def T(name, src, quick_secs, max_len=8192, timeout=10, **kw):
     d = dict(name=name, src=['props/C09/' + src], engine='libfuzzer', corpus=['corpus/C09/' + name], max_len=max_len,
-             timeout=timeout, hang_is_violation=True, fuzz_args=['-close_fd_mask=1', '-len_control=50'],
+             timeout=timeout, hang_is_violation=True, fuzz_args=['-close_fd_mask=1', '-len_control=%d' % (0 if max_len > 8192 else 50)],
              quick=dict(secs=quick_secs, shards=16), thorough=dict(secs=180, shards=16))
     # note: the per-case alarm armed by vf.h (VF_TARGET timeout) must be >= libFuzzer's -timeout, see the targets
     d.update(kw)
@@ -22,10 +22,10 @@ PROP = dict(
     assumptions=['key/response structures are zero-initialised before parsing, as every in-tree caller does',
                  'input buffers are exact-size heap copies without a terminating NUL (the APIs take pointer+length)'],
     targets=[
-        T('c09_x509_cert', 'x509_cert.cc', 12),
+        T('c09_x509_cert', 'x509_cert.cc', 12, max_len=70000),   # > 64 KiB: 16-bit psSize_t wrap with the bytes really present
         T('c09_x509_pem_bundle', 'x509_pem_bundle.cc', 8),
-        T('c09_crl', 'crl.cc', 10),
-        T('c09_ocsp_response', 'ocsp_response.cc', 10),
+        T('c09_crl', 'crl.cc', 10, max_len=70000),
+        T('c09_ocsp_response', 'ocsp_response.cc', 10, max_len=70000),
         T('c09_pkcs8', 'pkcs8.cc', 7, timeout=40),
         T('c09_pkcs12', 'pkcs12.cc', 10, timeout=40),
         T('c09_privkey_any', 'privkey_any.cc', 8, timeout=40),
